@@ -81,7 +81,7 @@ impl ToInternedString for TemplateLiteral {
         for elt in &self.elements {
             match elt {
                 TemplateElement::String(s) => {
-                    let _ = write!(buf, "{}", interner.resolve_expect(*s));
+                    super::push_escaped(&mut buf, interner.resolve_expect(*s).utf16(), '`');
                 }
                 TemplateElement::Expr(n) => {
                     let _ = write!(buf, "${{{}}}", n.to_interned_string(interner));
